@@ -17,6 +17,9 @@ the payload, or assemble the bitfield from keyword values.
   `kwargs.get(keyr, 0)` under the suffixed name, the range test `0 <= val < (1 << atts)` → OverflowError,
   `bitfield | (val << bfoffset)`, the stored value is the keyword's own object = one step of `flagsGen`. Values of other
   types are outside PyLite's comparison rules and stay with the correspondence check (C15 sweeps them).
+* `set_bitfield_gen` — the whole bitfield, generate direction, for flags of proper width with int / bool / absent keyword
+  values (`FlagsTyped`): the flag loop = `flagsGen`, `bitfield.to_bytes(bsiz, "little")` (OverflowError when the flags overflow
+  the field), `self._payload += …`, the returned offset.
 * `set_bitfield_parse` — the whole bitfield, parse direction, every input: `attsiz(btyp)`, the little-endian integer of
   `payload[offset : offset + bsiz]`, the loop over `bdict.items()` calling the *translated* `_set_attribute_bits`
   (induction over the flag list: `flagsParse`), the unchanged payload, the returned `(offset + bsiz, index)` = the model's
@@ -591,4 +594,210 @@ theorem set_bitfield_parse (c : WCtx) (hp : c.hasPayload = true) (F : Nat) (ty :
       rw [g2 _ (by decide) (by decide) (by decide) (by decide) (by decide)]; pysimp
     pystep [gKw, bf_contains, bContains, hp]
     pysimp [gOff, gBsiz, gIdx, Int.natCast_add]
+
+/-! ### generate direction of `_set_attribute_bitfield` -/
+
+/-- every flag has a proper width and an int / bool (or absent) keyword value -/
+def FlagsTyped (c : WCtx) (idx : List Nat) (flags : List (Name × Ty)) : Prop :=
+  ∀ kt ∈ flags, (∃ k, flagWidth kt.2 = .ok k) ∧ ∃ i, ((kwLookup c.kwargs ⟨kt.1, idx⟩).getD (.int 0)).asInt? = some i
+
+/-- one flag, generate direction, as the model has it -/
+def flagStepGen (c : WCtx) (idx : List Nat) (key : Name) (keyt : Ty) (bfo bitfield : Nat) (env : Env) : R (Nat × Nat × Env) :=
+  match flagWidth keyt with
+  | .error e => .error e
+  | .ok atts =>
+    let v := (kwLookup c.kwargs ⟨key, idx⟩).getD (.int 0)
+    match v.asInt? with
+    | none => .error .typeE
+    | some i =>
+      if i < 0 ∨ i ≥ (2 ^ atts : Nat) then .error .overflowE
+      else
+        if isReservedName key then .ok (bfo + atts, bitfield ||| (i.toNat <<< bfo), env)
+        else
+          match setAttr c env ⟨key, idx⟩ v with
+          | .error e => .error e
+          | .ok env' => .ok (bfo + atts, bitfield ||| (i.toNat <<< bfo), env')
+
+theorem flagsGen_cons (c : WCtx) (idx : List Nat) (key : Name) (keyt : Ty) (rest : List (Name × Ty)) (bfo bitfield : Nat) (env : Env) :
+    flagsGen c idx ((key, keyt) :: rest) bfo bitfield env
+      = (match flagStepGen c idx key keyt bfo bitfield env with
+         | .error e => .error e
+         | .ok (bfo', bf', env') => flagsGen c idx rest bfo' bf' env') := by
+  simp only [flagsGen, flagStepGen]
+  cases flagWidth keyt with
+  | error e => rfl
+  | ok atts =>
+    simp only
+    cases ((kwLookup c.kwargs ⟨key, idx⟩).getD (.int 0)).asInt? with
+    | none => rfl
+    | some i =>
+      simp only
+      by_cases h : i < 0 ∨ i ≥ ((2 ^ atts : Nat) : Int)
+      · simp only [h, ↓reduceIte]
+      · simp only [h, ↓reduceIte]
+        cases isReservedName key
+        · simp only [Bool.false_eq_true, ↓reduceIte]
+          cases setAttr c env ⟨key, idx⟩ _ <;> rfl
+        · simp only [↓reduceIte]
+
+def BfPostG (res : R (Nat × Nat × Env)) (vars : List (Name × V BO)) (st : BSt)
+    (r : X BO (Flow BO) × St BO BSt) : Prop :=
+  match res with
+  | .ok (bfo', bf', env') => r.1 = .ok .next ∧ r.2.h = { st with env := env' }
+      ∧ getVar r.2.vars 0x6269746669656c64 = some (.int bf') ∧ getVar r.2.vars 0x62666f6666736574 = some (.int bfo')
+      ∧ ∀ x, x ≠ 0x6269746669656c64 → x ≠ 0x62666f6666736574 → x ≠ 0x6b6579 → x ≠ 0x6b657974 → x ≠ 0x5f5f6974656d5f5f →
+          getVar r.2.vars x = getVar vars x
+  | .error e => r.1 = .error (.exc (excName e) 0)
+
+theorem bf_body_gen (c : WCtx) (hp : c.hasPayload = false) (F : Nat) (idx : List Nat) (hidx : ∀ i ∈ idx, 0 < i)
+    (key : Name) (keyt : Ty) (k : Nat) (hw : flagWidth keyt = .ok k) (i : Int)
+    (hv : ((kwLookup c.kwargs ⟨key, idx⟩).getD (.int 0)).asInt? = some i)
+    (bfo B : Nat) (vars : List (Name × V BO)) (st : BSt)
+    (gSelf : getVar vars 0x73656c66 = some (.host .self)) (gBf : getVar vars 0x6269746669656c64 = some (.int B))
+    (gBfo : getVar vars 0x62666f6666736574 = some (.int bfo)) (gIdx : getVar vars 0x696e646578 = some (idxV idx))
+    (gKw : getVar vars 0x6b7761726773 = some (.host .kwargs)) :
+    BfPostG (flagStepGen c idx key keyt bfo B st.env) vars st
+      (forBody (bfHost c F) F 0x5f5f6974656d5f5f bfBody (encFlag (key, keyt)) ⟨vars, st⟩) := by
+  have hb := set_bits_gen c hp F B bfo key keyt k hw idx hidx st i hv
+  simp only [forBody, bfBody, bfLoop, fn_UBXMessage__set_attribute_bitfield, encFlag]
+  pystep [gSelf, gBf, gBfo, gIdx, gKw, bf_mcall, bfMcall, hb, builtinMethod]
+  unfold flagStepGen
+  simp only [hw, hv]
+  have frame : ∀ (v1 v2 v3 v4 v5 : V BO) (x : Name), ¬x = 0x6269746669656c64 → ¬x = 0x62666f6666736574 → ¬x = 0x6b6579 →
+      ¬x = 0x6b657974 → ¬x = 0x5f5f6974656d5f5f →
+      getVar (setVar (setVar (setVar (setVar (setVar vars 0x5f5f6974656d5f5f v1) 0x6b6579 v2) 0x6b657974 v3) 0x6269746669656c64 v4)
+        0x62666f6666736574 v5) x = getVar vars x := by
+    intro v1 v2 v3 v4 v5 x h1 h2 h3 h4 h5
+    rw [getVar_setVar_ne _ _ _ _ (Ne.symm h2), getVar_setVar_ne _ _ _ _ (Ne.symm h1), getVar_setVar_ne _ _ _ _ (Ne.symm h4),
+      getVar_setVar_ne _ _ _ _ (Ne.symm h3), getVar_setVar_ne _ _ _ _ (Ne.symm h5)]
+  by_cases hr : i < 0 ∨ i ≥ ((2 ^ k : Nat) : Int)
+  · simp only [hr, ↓reduceIte, BfPostG]
+    rfl
+  · simp only [hr, ↓reduceIte]
+    cases hres : isReservedName key
+    · simp only [Bool.false_eq_true, ↓reduceIte]
+      cases setAttr c st.env ⟨key, idx⟩ _ with
+      | error e => simp [BfPostG]
+      | ok env' =>
+        simp only [bitsRet, BfPostG]
+        pysimp [bindT]
+        exact frame _ _ _ _ _
+    · simp only [↓reduceIte, bitsRet, BfPostG]
+      pysimp [bindT]
+      exact frame _ _ _ _ _
+
+theorem bf_loop_gen (c : WCtx) (hp : c.hasPayload = false) (F : Nat) (idx : List Nat) (hidx : ∀ i ∈ idx, 0 < i)
+    (flags : List (Name × Ty)) (hft : FlagsTyped c idx flags) : ∀ (bfo B : Nat) (vars : List (Name × V BO)) (st : BSt),
+    getVar vars 0x73656c66 = some (.host .self) → getVar vars 0x6269746669656c64 = some (.int B) →
+    getVar vars 0x62666f6666736574 = some (.int bfo) → getVar vars 0x696e646578 = some (idxV idx) →
+    getVar vars 0x6b7761726773 = some (.host .kwargs) →
+    (match flagsGen c idx flags bfo B st.env with
+     | .ok (bf', env') => ∃ vars', forLoop (forBody (bfHost c F) F 0x5f5f6974656d5f5f bfBody) (flags.map encFlag) ⟨vars, st⟩
+          = (.ok .next, ⟨vars', { st with env := env' }⟩)
+          ∧ getVar vars' 0x6269746669656c64 = some (.int bf')
+          ∧ ∀ x, x ≠ 0x6269746669656c64 → x ≠ 0x62666f6666736574 → x ≠ 0x6b6579 → x ≠ 0x6b657974 → x ≠ 0x5f5f6974656d5f5f →
+              getVar vars' x = getVar vars x
+     | .error e => (forLoop (forBody (bfHost c F) F 0x5f5f6974656d5f5f bfBody) (flags.map encFlag) ⟨vars, st⟩).1
+          = .error (.exc (excName e) 0)) := by
+  induction flags with
+  | nil =>
+    intro bfo B vars st _ gBf _ _ _
+    simp only [flagsGen, List.map_nil, forLoop]
+    exact ⟨vars, rfl, gBf, fun _ _ _ _ _ _ => rfl⟩
+  | cons kt rest ih =>
+    intro bfo B vars st gSelf gBf gBfo gIdx gKw
+    obtain ⟨key, keyt⟩ := kt
+    obtain ⟨⟨k, hw⟩, ⟨i, hv⟩⟩ := hft (key, keyt) (by simp)
+    have hb := bf_body_gen c hp F idx hidx key keyt k hw i hv bfo B vars st gSelf gBf gBfo gIdx gKw
+    rw [List.map_cons, forLoop, flagsGen_cons]
+    generalize forBody (bfHost c F) F 0x5f5f6974656d5f5f bfBody (encFlag (key, keyt)) ⟨vars, st⟩ = r0 at hb
+    obtain ⟨r, ⟨vars1, st1⟩⟩ := r0
+    cases hs : flagStepGen c idx key keyt bfo B st.env with
+    | error e =>
+      rw [hs] at hb
+      simp only [BfPostG] at hb
+      subst hb
+      rfl
+    | ok be =>
+      obtain ⟨bfo', bf1, env1⟩ := be
+      rw [hs] at hb
+      simp only [BfPostG] at hb
+      obtain ⟨h1, h2, h3, h4, h5⟩ := hb
+      subst h1
+      subst h2
+      simp only
+      have := ih (fun kt hkt => hft kt (by simp [hkt])) bfo' bf1 vars1 { st with env := env1 }
+        (by rw [h5 _ (by decide) (by decide) (by decide) (by decide) (by decide)]; exact gSelf)
+        h3 h4 (by rw [h5 _ (by decide) (by decide) (by decide) (by decide) (by decide)]; exact gIdx)
+        (by rw [h5 _ (by decide) (by decide) (by decide) (by decide) (by decide)]; exact gKw)
+      cases hf : flagsGen c idx rest bfo' bf1 env1 with
+      | error e => rw [hf] at this; exact this
+      | ok be2 =>
+        obtain ⟨bf2, env2⟩ := be2
+        rw [hf] at this
+        obtain ⟨vars2, g1, g2, g3⟩ := this
+        exact ⟨vars2, g1, g2, fun x a1 a2 a3 a4 a5 => by rw [g3 x a1 a2 a3 a4 a5, h5 x a1 a2 a3 a4 a5]⟩
+
+/-- **`_set_attribute_bitfield` as written, generate direction = the model's `wBits`**, for flags of proper width whose
+    keyword values are ints or bools (or absent) -/
+theorem set_bitfield_gen (c : WCtx) (hp : c.hasPayload = false) (F : Nat) (ty : Ty) (bsiz : Nat)
+    (hty : attsiz ty = .ok (bsiz : Int)) (flags : List (Name × Ty)) (off : Nat) (idx : List Nat)
+    (hidx : ∀ i ∈ idx, 0 < i) (hft : FlagsTyped c idx flags) (st : BSt) :
+    (match wBits c idx ty flags ⟨off, st.payload, st.env⟩ with
+     | .ok ws => runFn (bfHost c F) F fn_UBXMessage__set_attribute_bitfield
+          [.host .self, .tuple [.host (.ty ty), .host (.flags flags)], .int off, idxV idx, .host .kwargs] st
+          = (.ok (.tuple [.int (ws.off : Nat), idxV idx]), ⟨ws.env, ws.payload⟩)
+     | .error e => (runFn (bfHost c F) F fn_UBXMessage__set_attribute_bitfield
+          [.host .self, .tuple [.host (.ty ty), .host (.flags flags)], .int off, idxV idx, .host .kwargs] st).1
+          = .error (.exc (excName e) 0)) := by
+  unfold runFn fn_UBXMessage__set_attribute_bitfield wBits
+  simp only [hty, hp, Bool.false_eq_true, ↓reduceIte, Int.toNat_natCast]
+  pystep [bindT]
+  pystep [bf_call, bCall, hty, encR]
+  pystep
+  pystep [bf_contains, bContains, hp]
+  rw [execB_cons, execS_for]
+  pysimp [bf_mcall, bfMcall, List.isEmpty_nil, iterOf, builtinMethod]
+  have hl := bf_loop_gen c hp F idx hidx flags hft 0 0
+    [(1936026726, V.host BO.self), (1635023216, V.tuple [V.host (BO.ty ty), V.host (BO.flags flags)]),
+      (122485596185972, V.int ↑off), (452823639416, idxV idx), (118160480167795, V.host BO.kwargs),
+      (1651800432, V.host (BO.ty ty)), (422591423348, V.host (BO.flags flags)), (1651730810, V.int ↑bsiz),
+      (7090477148937610612, V.int 0), (7091327071475297380, V.int 0)] st
+    (by pysimp) (by pysimp) (by pysimp) (by pysimp) (by pysimp)
+  simp only [bfBody, bfLoop, fn_UBXMessage__set_attribute_bitfield] at hl
+  have henc : (fun (kt : Name × Ty) => (V.tuple [V.str kt.fst, V.host (BO.ty kt.snd)] : V BO)) = encFlag := rfl
+  rw [henc]
+  cases hf : flagsGen c idx flags 0 0 st.env with
+  | error e =>
+    rw [hf] at hl
+    simp only at hl ⊢
+    generalize forLoop _ _ _ = r at hl ⊢
+    obtain ⟨r1, r2⟩ := r
+    simp only at hl
+    subst hl
+    rfl
+  | ok be =>
+    obtain ⟨bf', env'⟩ := be
+    rw [hf] at hl
+    obtain ⟨vars', g1, gbf, g2⟩ := hl
+    simp only
+    rw [g1]
+    simp only
+    have gSelf : getVar vars' 0x73656c66 = some (.host .self) := by
+      rw [g2 _ (by decide) (by decide) (by decide) (by decide) (by decide)]; pysimp
+    have gKw : getVar vars' 0x6b7761726773 = some (.host .kwargs) := by
+      rw [g2 _ (by decide) (by decide) (by decide) (by decide) (by decide)]; pysimp
+    have gOff : getVar vars' 0x6f6666736574 = some (.int off) := by
+      rw [g2 _ (by decide) (by decide) (by decide) (by decide) (by decide)]; pysimp
+    have gBsiz : getVar vars' 0x6273697a = some (.int bsiz) := by
+      rw [g2 _ (by decide) (by decide) (by decide) (by decide) (by decide)]; pysimp
+    have gIdx : getVar vars' 0x696e646578 = some (idxV idx) := by
+      rw [g2 _ (by decide) (by decide) (by decide) (by decide) (by decide)]; pysimp
+    pystep [gKw, gSelf, gbf, gBsiz, bf_contains, bContains, hp, bf_attr, bfAttr, bf_mcall, bfMcall, builtinMethod,
+      Int.natCast_nonneg, Int.toNat_natCast]
+    cases hi : intToBytes (bf' : Int) bsiz false with
+    | error e => simp [encR]
+    | ok bs =>
+      simp only [encR]
+      pysimp [bf_setattr, bfSetattr, gOff, gBsiz, gIdx, Int.natCast_add]
 end Ubx.Py
